@@ -679,6 +679,12 @@ def reduce_dim(f, reducedef, fuzzydim=True, metakeys=_metakeys):
         for k in var.ncattrs():
             setattr(nvar, k, getattr(var, k))
 
+    if dimkey not in outf.dimensions:
+        # no variable uses the reduced dimension: it is kept with length 1
+        # like the reduced axis of every variable
+        outdim = outf.createDimension(dimkey, 1)
+        outdim.setunlimited(inf.dimensions[dimkey].isunlimited())
+
     history = getattr(outf, 'history', '')
     history += historydef
     setattr(outf, 'history', history)
